@@ -23,7 +23,7 @@ fn name_bytes(label: &str) -> Vec<u8> {
 }
 
 /// Blocks + index of the Writer model's state, contents concretised with the PRF
-fn model_to_blocks(par: &Par, job: &Value) -> (Vec<Block>, Vec<(Vec<u8>, Vec<u64>, u64, u64)>) {
+pub fn model_to_blocks(par: &Par, job: &Value) -> (Vec<Block>, Vec<(Vec<u8>, Vec<u64>, u64, u64)>) {
     let mut fed: HashMap<u64, usize> = HashMap::new();
     let mut total: HashMap<u64, usize> = HashMap::new();
     for b in job["stream"].as_array().unwrap() {
